@@ -9,9 +9,6 @@ import (
 	"github.com/postalsys/muti-metroo/internal/identity"
 )
 
-// VerifSetSender replaces the peer sender (recording sender of the harness).
-func (f *Flooder) VerifSetSender(s PeerSender) { f.sender = s }
-
 // VerifCleanup runs one cache cleanup pass synchronously (the pass the
 // cleanup loop runs every SeenCacheTTL/2).
 func (f *Flooder) VerifCleanup() { f.cleanup() }
